@@ -328,6 +328,7 @@ DRIVERS = {
     "sdriver": dict(name="sdriver", extract_v="theories/Extract/ExtractSolver.v", modname="smodel"),
     "qdriver": dict(name="qdriver", extract_v="theories/Extract/ExtractQef.v", modname="qmodel"),
     "vdriver": dict(name="vdriver", extract_v="theories/Extract/ExtractHeightmap.v", modname="vmodel"),
+    "pdriver": dict(name="pdriver", extract_v="theories/Extract/ExtractProgress.v", modname="pmodel"),
 }
 
 
